@@ -320,6 +320,10 @@ def coverage(run, results, mm, ff):
              'ClientKeeper.UpdateClient on a real client store, or one VerifyPacketCommitment/Acknowledgement call; distinct = '
              'distinct (scenario tokens of the generator, result class, own validator set size)',
         distribution=dict(sorted(dist.items())), model_mismatches=len(mm), monitor_failures=len(ff),
+        directed_histories=sum(1 for r in results if 100000 <= r['spec']['id'] < 200000),
+        sweep_histories=sum(1 for r in results if r['spec']['id'] >= 200000),
+        sweep_rule='exhaustive: every power vector in {1,2,3}^n (n <= %d), every signer subset, trust levels 1/3 and 2/3, adjacent and '
+                   'skipping header, own set = trusted set / first validator replaced by an outsider' % (2 if run.quick() else 3),
         samples=[dict(id=r['spec']['id'], client=r['spec']['client'],
                       steps=[dict(kind=st['kind'], now=st['now'], desc=st.get('desc'),
                                   result=(['accepted', 'rejected', 'panicked'][o['keeper_class']] if o['kind'] == 'update'
@@ -379,7 +383,9 @@ def check(run):
         return run.finish()
     n = run.budget(150, 2000)
     outp = os.path.join(run.work, 'out.jsonl')
-    rc, o = vlib.run_harness('c07', ['-seed', run.seed, '-n', n, '-steps', run.budget(8, 12), '-out', outp])
+    # corpus (directed histories) first, then the exhaustive threshold sweep (all power vectors in {1,2,3}^n, n <= 2 / 3, all signer
+    # subsets, levels 1/3 and 2/3, adjacent and skipping), then the seeded random histories
+    rc, o = vlib.run_harness('c07', ['-seed', run.seed, '-n', n, '-steps', run.budget(8, 12), '-sweep', run.budget(2, 3), '-out', outp])
     if rc != 0:
         run.violation(dict(kind='harness-crashed', log=o[-3000:]), no_input=True)
         return run.finish()
